@@ -1,6 +1,6 @@
 (* C15: handle discipline, descriptor balance, quiescence. *)
 From Coq Require Import List NArith Bool Lia.
-From FB Require Import Model.Inodes Model.Handles Proofs.InodesMap Proofs.Inodes.
+From FB Require Import Model.Inodes Model.Handles Proofs.InodesMap Proofs.Inodes Proofs.InodesNum.
 Import ListNotations.
 Local Open Scope N_scope.
 Local Arguments N.add : simpl never.
@@ -133,14 +133,10 @@ Proof.
   cbn [ino handles cookies next_handle mount_live fds leaked]. repeat split; auto. lia.
 Qed.
 
-Lemma mount_get_bal live f k : let '(l, f', k') := mount_get live f k in
-  l = true /\ f' + (if live then 1 else 0) + k = f + 1 + k' + (if live then 0 else 0) /\ (k' = if live then k else k + 1).
-Proof. unfold mount_get. destruct live; cbn; repeat split; lia. Qed.
-
 Lemma h_import_inv c s root :
   data (ino s) = [] -> handles s = [] -> cookies s = [] -> mount_live s = false -> fds s = 2 + leaked s ->
   HInv (h_import c s root) /\
-  leaked (h_import c s root) = leaked s + (if is_none (eff_fh (hc c) root) then 0 else 1) /\
+  leaked (h_import c s root) = leaked s /\
   next_handle (h_import c s root) = next_handle s.
 Proof.
   intros D H C M F. unfold h_import, import, insert. rewrite M. cbn [mount_get].
@@ -148,7 +144,7 @@ Proof.
   - split; [|split; reflexivity].
     unfold HInv, Bal, HBound, HNoDup, CookieSub, fds_owned, file_inodes, hget. cbn. rewrite D, H, C. cbn.
     repeat split; try discriminate; try constructor. lia.
-  - split; [|split; [cbn [leaked]; lia|reflexivity]].
+  - split; [|split; reflexivity].
     unfold HInv, Bal, HBound, HNoDup, CookieSub, fds_owned, file_inodes, hget. cbn. rewrite D, H, C. cbn.
     repeat split; try discriminate; try constructor. lia.
 Qed.
@@ -215,29 +211,25 @@ Proof.
     unfold Bal, fds_owned in B. lia.
 Qed.
 
-(* descriptors that no table entry owns appear only in MountFds::get (import with a file handle) *)
-Theorem leaked_only_in_import c s o :
-  HInv s ->
-  leaked (snd (hstep c s o)) =
-  leaked s + match o with HDestroy root => if is_none (eff_fh (hc c) root) then 0 else 1 | _ => 0 end.
+(* no request ever produces a descriptor that no table entry owns *)
+Theorem leaked_const c s o : HInv s -> leaked (snd (hstep c s o)) = leaked s.
 Proof.
   intros I. pose proof I as (B & HB & ND & CS).
   destruct o as [o|dir i ok|dir i h|p t ex ok|plus i h host ents|kind i h|root]; cbn [hstep].
-  - destruct (step (hc c) (ino s) o) as [r i1]. cbn. lia.
-  - destruct (if dir then no_opendir c else no_open c); [cbn; lia|].
-    destruct (negb (open_inode_ok s i)); [cbn; lia|]. destruct (negb ok); cbn; lia.
-  - destruct (if dir then no_opendir c else no_open c); [cbn; lia|]. destruct (handle_get s h i); cbn; lia.
+  - destruct (step (hc c) (ino s) o) as [r i1]. reflexivity.
+  - destruct (if dir then no_opendir c else no_open c); [reflexivity|].
+    destruct (negb (open_inode_ok s i)); [reflexivity|]. destruct (negb ok); reflexivity.
+  - destruct (if dir then no_opendir c else no_open c); [reflexivity|]. destruct (handle_get s h i); reflexivity.
   - destruct (step (hc c) (ino s) (OCreate p t ex ok)) as [r i1].
-    destruct r; cbn; try lia. destruct (no_open c); cbn; lia.
-  - destruct (if no_opendir c then open_inode_ok s i else handle_get s h i); [|cbn; lia].
-    destruct host as [b|]; [|cbn; lia]. destruct (readdir_entries (hc c) plus (ino s) ents). cbn. lia.
-  - cbn. lia.
+    destruct r; try reflexivity. destruct (no_open c); reflexivity.
+  - destruct (if no_opendir c then open_inode_ok s i else handle_get s h i); [|reflexivity].
+    destruct host as [b|]; [|reflexivity]. destruct (readdir_entries (hc c) plus (ino s) ents). reflexivity.
+  - reflexivity.
   - cbn [snd]. match goal with |- leaked (h_import c ?s0 root) = _ => destruct (h_import_inv c s0 root) as (_ & L & _) end;
       cbn; auto. unfold Bal, fds_owned in B. lia.
 Qed.
 
-Lemma h_fresh_inv c root : HInv (h_fresh c root) /\
-  leaked (h_fresh c root) = (if is_none (eff_fh (hc c) root) then 0 else 1) /\ next_handle (h_fresh c root) = 1.
+Lemma h_fresh_inv c root : HInv (h_fresh c root) /\ leaked (h_fresh c root) = 0 /\ next_handle (h_fresh c root) = 1.
 Proof.
   unfold h_fresh. destruct (h_import_inv c h_empty root) as (A & B & C); cbn; auto.
 Qed.
@@ -262,23 +254,19 @@ Qed.
 (* ------------------------------------------------------------------ whole histories *)
 Theorem hrun_inv c : forall h s,
   HInv s -> next_handle s + N.of_nat (length h) <= U64MAX ->
-  HInv (snd (hrun c s h)) /\
-  leaked (snd (hrun c s h)) =
-    leaked s + N.of_nat (length (filter (known_d8 c) h)).
+  HInv (snd (hrun c s h)) /\ leaked (snd (hrun c s h)) = leaked s.
 Proof.
-  induction h as [|o h IH]; intros s I NW; cbn [hrun filter length].
-  - cbn. split; [exact I|lia].
+  induction h as [|o h IH]; intros s I NW; cbn [hrun length].
+  - cbn. split; [exact I|reflexivity].
   - cbn [length] in NW. rewrite Nat2N.inj_succ in NW.
     assert (NW1 : next_handle s < U64MAX) by lia.
     pose proof (hstep_inv c s o I NW1) as I1.
-    pose proof (leaked_only_in_import c s o I) as L1.
+    pose proof (leaked_const c s o I) as L1.
     pose proof (next_handle_step c s o NW1) as [_ N1].
     destruct (hstep c s o) as [rep s1]; cbn [snd] in *.
     assert (NW2 : next_handle s1 + N.of_nat (length h) <= U64MAX) by lia.
     destruct (IH s1 I1 NW2) as [A B].
-    destruct (hrun c s1 h) as [l s2]; cbn [snd] in *. split; [exact A|].
-    rewrite B, L1. unfold known_d8 at 2. destruct o; cbn [length]; try lia.
-    destruct (is_none (eff_fh (hc c) root)); cbn [negb length]; [lia|rewrite Nat2N.inj_succ; lia].
+    destruct (hrun c s1 h) as [l s2]; cbn [snd] in *. split; [exact A|]. rewrite B, L1. reflexivity.
 Qed.
 
 (* after the client released every handle: no handle, no directory-position record, and every
@@ -310,73 +298,223 @@ Proof.
   - specialize (O k2 E). cbn in O. destruct (N.eqb_spec k2 ROOT_ID); [contradiction|]. rewrite N.eqb_refl in O. discriminate.
 Qed.
 
-Theorem quiescent_partial c root s d :
-  HInv s -> handles s = [] -> NoDup (map fst (data (ino s))) ->
-  dget (ino s) ROOT_ID = Some d -> i_fh d = eff_fh (hc c) root ->
-  (forall i, i <> ROOT_ID -> dget (ino s) i = None) ->
-  mount_live s = mount_live (h_fresh c root) ->
-  cookies s = [] /\ length (data (ino s)) = 1%nat /\
-  fds s + leaked (h_fresh c root) = fds (h_fresh c root) + leaked s.
+(* ------------------------------------------------------------------ the inode list never has duplicate keys *)
+Definition DND (s : istate) : Prop := NoDup (map fst (data s)).
+
+Lemma do_lookup_dnd c s t r s' : DND s -> do_lookup c s t = (r, s') -> DND s'.
 Proof.
-  intros I H ND R FH O ML. destruct (quiescent_tables s I H) as [C F]. split; [exact C|].
-  pose proof (only_root_data _ _ ND R O) as D. split; [rewrite D; reflexivity|].
-  destruct (h_fresh_inv c root) as ((BF & _) & LF & _).
-  unfold Bal, fds_owned in BF. rewrite F, BF, ML.
-  assert (X : file_inodes (ino s) = file_inodes (ino (h_fresh c root))).
-  { unfold file_inodes. rewrite D. unfold h_fresh, h_import, import, insert. cbn.
-    destruct (eff_fh (hc c) root) eqn:E; cbn; rewrite FH; cbn; rewrite ?E; reflexivity. }
-  assert (HF : handles (h_fresh c root) = []).
-  { unfold h_fresh, h_import. cbn. destruct (eff_fh (hc c) root); reflexivity. }
-  rewrite X, HF. cbn [length]. lia.
+  intros ND H. destruct (do_lookup_cases _ _ _ _ _ H) as
+    [(i & d & GA & Z & -> & ->)|[(i & d & GA & Z & -> & ->)|[(i & s1 & GA & AL & B & -> & ->)|(ro & GA & -> & AL)]]].
+  - unfold DND, set_rc, set_data; cbn [data]. apply nodup_mset; exact ND.
+  - exact ND.
+  - destruct (alloc_frame _ _ _ _ _ _ AL) as (D & _). unfold DND, insert; cbn [data]. rewrite D. apply nodup_mset; exact ND.
+  - destruct (alloc_frame _ _ _ _ _ _ AL) as (D & _). unfold DND. rewrite D. exact ND.
 Qed.
 
-(* ------------------------------------------------------------------ the full statement and its refutation (defect D8) *)
+Lemma forget_dnd c s i n : DND s -> DND (forget_one c s i n).
+Proof.
+  intros ND. unfold forget_one. destruct (i =? ROOT_ID); [exact ND|].
+  destruct (dget s i) as [d|] eqn:L; [|exact ND].
+  destruct (sat_sub (i_rc d) n =? 0).
+  - unfold remove. rewrite L. destruct (negb (uhi c) || (MAX_HOST_INO <? hid_ino (i_id d)));
+      unfold DND, set_data; cbn [data]; apply nodup_mdel; exact ND.
+  - unfold DND, set_rc, set_data; cbn [data]. apply nodup_mset; exact ND.
+Qed.
+
+Lemma readdir_entries_dnd c plus : forall ents s, DND s -> DND (snd (readdir_entries c plus s ents)).
+Proof.
+  induction ents as [|e r IH]; cbn [readdir_entries]; intros s ND; [exact ND|].
+  unfold readdir_entry. destruct (do_lookup c s (fst e)) as [lr s1] eqn:DL.
+  pose proof (do_lookup_dnd _ _ _ _ _ ND DL) as N1.
+  destruct lr as [i| |]; cbn [snd]; try exact N1.
+  set (s2 := if plus && snd e then s1 else forget_one c s1 i 1).
+  assert (N2 : DND s2) by (unfold s2; destruct (plus && snd e); [exact N1|apply forget_dnd; exact N1]).
+  specialize (IH s2 N2). destruct (readdir_entries c plus s2 r); exact IH.
+Qed.
+
+Lemma step_dnd c s o : DND s -> DND (snd (step c s o)).
+Proof.
+  intros ND.
+  assert (LK : forall t, DND (snd (lookup_reply c s t))).
+  { intros t. unfold lookup_reply. destruct (do_lookup c s t) as [lr s1] eqn:DL.
+    pose proof (do_lookup_dnd _ _ _ _ _ ND DL). destruct lr; assumption. }
+  destruct o as [p t|p t|i p t|p t ex ok|i n|l|plus ents| |root]; cbn [step].
+  - destruct (valid s p); [|exact ND]. destruct t; [apply LK|exact ND].
+  - destruct (valid s p); [|exact ND]. destruct t; [apply LK|exact ND].
+  - destruct (valid s i && valid s p); [|exact ND]. destruct t; [apply LK|exact ND].
+  - destruct (valid s p); [|exact ND]. destruct t as [t|]; [|exact ND].
+    specialize (LK t). destruct (lookup_reply c s t) as [rep s1]. cbn [snd] in LK.
+    destruct rep; try exact LK. destruct ex; [|exact LK].
+    destruct (dget s1 i) as [d|]; [destruct (i_safe d); [destruct ok|]|]; cbn [snd];
+      first [exact LK|apply forget_dnd; exact LK].
+  - apply forget_dnd; exact ND.
+  - cbn [snd]. clear LK. revert s ND. induction l as [|x r IH]; cbn; intros s ND; [exact ND|].
+    apply IH. apply forget_dnd; exact ND.
+  - pose proof (readdir_entries_dnd c plus ents s ND) as X. destruct (readdir_entries c plus s ents); exact X.
+  - exact ND.
+  - cbn [snd]. unfold DND, import, insert; cbn. constructor; [intros []|constructor].
+Qed.
+
+(* ------------------------------------------------------------------ lifting inode-table invariants to the handle model *)
+Definition ino_op (o : hop) : option op :=
+  match o with
+  | HInode o => Some o
+  | HCreate p t ex ok => Some (OCreate p t ex ok)
+  | HReaddir plus _ _ _ ents => Some (OReaddir plus ents)
+  | HDestroy root => Some (ODestroy root)
+  | _ => None
+  end.
+
+Lemma hstep_ino c s o :
+  ino (snd (hstep c s o)) = ino s \/
+  exists o', ino_op o = Some o' /\ ino (snd (hstep c s o)) = snd (step (hc c) (ino s) o').
+Proof.
+  destruct o as [o|dir i ok|dir i h|p t ex ok|plus i h host ents|kind i h|root]; cbn [hstep ino_op].
+  - right. exists o. split; [reflexivity|]. destruct (step (hc c) (ino s) o). reflexivity.
+  - left. destruct (if dir then no_opendir c else no_open c); [reflexivity|].
+    destruct (negb (open_inode_ok s i)); [reflexivity|]. destruct (negb ok); reflexivity.
+  - left. destruct (if dir then no_opendir c else no_open c); [reflexivity|]. destruct (handle_get s h i); reflexivity.
+  - right. exists (OCreate p t ex ok). split; [reflexivity|].
+    destruct (step (hc c) (ino s) (OCreate p t ex ok)) as [r i1]. destruct r; try reflexivity.
+    destruct (no_open c); reflexivity.
+  - destruct (if no_opendir c then open_inode_ok s i else handle_get s h i); [|left; reflexivity].
+    destruct host as [b|]; [|left; reflexivity].
+    right. exists (OReaddir plus ents). split; [reflexivity|]. cbn [step].
+    destruct (readdir_entries (hc c) plus (ino s) ents). reflexivity.
+  - left. reflexivity.
+  - right. exists (ODestroy root). split; [reflexivity|]. cbn [snd step]. unfold h_import. cbn.
+    destruct (eff_fh (hc c) root); reflexivity.
+Qed.
+
+Definition hop_wf (c : hcfg) (o : hop) : Prop :=
+  match ino_op o with Some o' => op_wf (hc c) o' | None => True end.
+
+(* inode-side invariant used for quiescence: root present, keys consistent, handle kind of the mode, no duplicates *)
+Definition IInv (c : hcfg) (s : hstate) : Prop :=
+  IRoot (ino s) /\ KInv (hc c) (ino s) /\ DND (ino s) /\ mount_live s = ifh (hc c).
+
+Lemma mount_live_step c s o :
+  mount_live s = ifh (hc c) -> hop_wf c o -> mount_live (snd (hstep c s o)) = ifh (hc c).
+Proof.
+  intros M W.
+  destruct o as [o|dir i ok|dir i h|p t ex ok|plus i h host ents|kind i h|root]; cbn [hstep].
+  - destruct (step (hc c) (ino s) o). exact M.
+  - destruct (if dir then no_opendir c else no_open c); [exact M|].
+    destruct (negb (open_inode_ok s i)); [exact M|]. destruct (negb ok); exact M.
+  - destruct (if dir then no_opendir c else no_open c); [exact M|]. destruct (handle_get s h i); exact M.
+  - destruct (step (hc c) (ino s) (OCreate p t ex ok)) as [r i1]. destruct r; try exact M. destruct (no_open c); exact M.
+  - destruct (if no_opendir c then open_inode_ok s i else handle_get s h i); [|exact M].
+    destruct host as [b|]; [|exact M]. destruct (readdir_entries (hc c) plus (ino s) ents). exact M.
+  - exact M.
+  - cbn [snd]. unfold hop_wf, ino_op, op_wf, wf_t, okfh in W. unfold h_import. cbn.
+    destruct (eff_fh (hc c) root); cbn in *; destruct (ifh (hc c)); cbn in *; congruence.
+Qed.
+
+Theorem hstep_iinv c s o : IInv c s -> hop_wf c o -> IInv c (snd (hstep c s o)).
+Proof.
+  intros (R & K & ND & M) W. split; [|split; [|split]].
+  - destruct (hstep_ino c s o) as [E|(o' & E1 & E2)]; [rewrite E; exact R|]. rewrite E2. apply step_root; exact R.
+  - destruct (hstep_ino c s o) as [E|(o' & E1 & E2)]; [rewrite E; exact K|]. rewrite E2.
+    apply step_KInv; [exact K|]. unfold hop_wf in W. rewrite E1 in W. exact W.
+  - destruct (hstep_ino c s o) as [E|(o' & E1 & E2)]; [rewrite E; exact ND|]. rewrite E2. apply step_dnd; exact ND.
+  - apply mount_live_step; assumption.
+Qed.
+
+Lemma h_fresh_iinv c root : wf_t (hc c) root -> IInv c (h_fresh c root).
+Proof.
+  intros W. unfold h_fresh, h_import, h_empty; cbn.
+  assert (X : IRoot (import empty_state (hc c) root) /\ KInv (hc c) (import empty_state (hc c) root) /\ DND (import empty_state (hc c) root)).
+  { split; [apply (fresh_root (hc c) root)|]. split; [apply fresh_KInv; exact W|].
+    unfold DND, import, insert; cbn. constructor; [intros []|constructor]. }
+  destruct X as (A & B & C). unfold wf_t, okfh in W.
+  destruct (eff_fh (hc c) root); cbn in *; (split; [exact A|split; [exact B|split; [exact C|]]]);
+    destruct (ifh (hc c)); cbn in *; congruence.
+Qed.
+
+Theorem hrun_iinv c : forall h s, IInv c s -> Forall (hop_wf c) h -> IInv c (snd (hrun c s h)).
+Proof.
+  induction h as [|o h IH]; intros s I W; cbn [hrun]; [exact I|].
+  inversion W as [|? ? W1 W2]; subst.
+  pose proof (hstep_iinv c s o I W1) as I1. destruct (hstep c s o) as [rep s1]; cbn [snd] in *.
+  specialize (IH s1 I1 W2). destruct (hrun c s1 h); exact IH.
+Qed.
+
+(* ------------------------------------------------------------------ quiescence, full strength *)
+(* after any history (host hypothesis: in handle mode the export yields file handles), once the client
+   has released every handle and no inode but the root is live, the server holds exactly what a
+   fresh server holds: one inode object, no handle, no directory-position record, the same descriptors *)
 Definition quiescent_full : Prop := forall c root h,
-  N.of_nat (length h) + 1 <= U64MAX ->
+  wf_t (hc c) root -> Forall (hop_wf c) h -> 1 + N.of_nat (length h) <= U64MAX ->
   let s := snd (hrun c (h_fresh c root) h) in
   handles s = [] -> (forall i, i <> ROOT_ID -> dget (ino s) i = None) ->
-  fds s = fds (h_fresh c root).
+  cookies s = [] /\ length (data (ino s)) = 1%nat /\ leaked s = 0 /\ fds s = fds (h_fresh c root).
+
+Lemma file_inodes_root c s d : KInv (hc c) (ino s) -> data (ino s) = [(ROOT_ID, d)] ->
+  file_inodes (ino s) = if ifh (hc c) then 0 else 1.
+Proof.
+  intros [_ F] D. assert (L : dget (ino s) ROOT_ID = Some d) by (unfold dget; rewrite D; reflexivity).
+  specialize (F _ _ L). unfold okfh in F. unfold file_inodes. rewrite D. cbn.
+  destruct (i_fh d); destruct (ifh (hc c)); cbn in *; try discriminate; reflexivity.
+Qed.
+
+Theorem quiescent_full_holds : quiescent_full.
+Proof.
+  intros c root h W WH NW s H O.
+  destruct (h_fresh_inv c root) as (I0 & L0 & NH).
+  assert (NW1 : next_handle (h_fresh c root) + N.of_nat (length h) <= U64MAX) by (rewrite NH; exact NW).
+  destruct (hrun_inv c h (h_fresh c root) I0 NW1) as [I L]. fold s in I, L.
+  pose proof (hrun_iinv c h (h_fresh c root) (h_fresh_iinv c root W) WH) as (R & K & ND & M). fold s in R, K, ND, M.
+  destruct (quiescent_tables s I H) as [C F]. destruct R as [d R].
+  pose proof (only_root_data _ _ ND R O) as D.
+  split; [exact C|]. split; [rewrite D; reflexivity|]. split; [lia|].
+  destruct (h_fresh_iinv c root W) as ([d0 R0] & K0 & ND0 & M0).
+  assert (O0 : forall i, i <> ROOT_ID -> dget (ino (h_fresh c root)) i = None).
+  { intros i NE.
+    assert (EI : ino (h_fresh c root) = import empty_state (hc c) root).
+    { unfold h_fresh, h_import, h_empty. cbn [ino mount_live fds leaked mount_get]. destruct (eff_fh (hc c) root); reflexivity. }
+    rewrite EI. unfold import. rewrite dget_insert. destruct (N.eqb_spec i ROOT_ID); [contradiction|reflexivity]. }
+  pose proof (only_root_data _ _ ND0 R0 O0) as D0.
+  assert (HF : handles (h_fresh c root) = []).
+  { unfold h_fresh, h_import. cbn. destruct (eff_fh (hc c) root); reflexivity. }
+  destruct (quiescent_tables _ I0 HF) as [_ F0].
+  rewrite F, F0, (file_inodes_root c s d K D), (file_inodes_root c _ d0 K0 D0), M, M0. lia.
+Qed.
 
 Definition d8_cfg : hcfg := mkHC (mkCfg true false) false false.
 Definition d8_root : target := mkT (100, 1, 1) (Some 7) true.
-Definition d8_hist : list hop := [HDestroy d8_root].
+Definition d8_hist : list hop := [HDestroy d8_root; HDestroy d8_root].
 
-Lemma quiescent_full_refuted : ~ quiescent_full.
-Proof.
-  intros H. specialize (H d8_cfg d8_root d8_hist).
-  assert (B : N.of_nat (length d8_hist) + 1 <= U64MAX) by (vm_compute; discriminate).
-  specialize (H B eq_refl).
-  assert (O : forall i, i <> ROOT_ID -> dget (ino (snd (hrun d8_cfg (h_fresh d8_cfg d8_root) d8_hist))) i = None).
-  { intros i NE. vm_compute. destruct i as [|[p|p|]]; try reflexivity. exfalso. apply NE. reflexivity. }
-  specialize (H O). vm_compute in H. discriminate.
-Qed.
-
+(* destroy + re-init with file handles no longer costs a descriptor *)
 Lemma d8_witness_shape :
-  fds (h_fresh d8_cfg d8_root) = 4 /\ leaked (h_fresh d8_cfg d8_root) = 1 /\
-  fds (snd (hrun d8_cfg (h_fresh d8_cfg d8_root) d8_hist)) = 5 /\
-  leaked (snd (hrun d8_cfg (h_fresh d8_cfg d8_root) d8_hist)) = 2 /\
+  fds (h_fresh d8_cfg d8_root) = 3 /\ leaked (h_fresh d8_cfg d8_root) = 0 /\
+  fds (snd (hrun d8_cfg (h_fresh d8_cfg d8_root) d8_hist)) = 3 /\
+  leaked (snd (hrun d8_cfg (h_fresh d8_cfg d8_root) d8_hist)) = 0 /\
   fds_owned (snd (hrun d8_cfg (h_fresh d8_cfg d8_root) d8_hist)) = 3.
 Proof. vm_compute. auto. Qed.
 
-(* outside the known class the number of unowned descriptors never changes *)
-Theorem no_leak_outside_d8 c root h :
-  1 + N.of_nat (length h) <= U64MAX -> filter (known_d8 c) h = [] ->
+(* every descriptor is owned by a table entry, always *)
+Theorem all_descriptors_owned c root h :
+  1 + N.of_nat (length h) <= U64MAX ->
   let s := snd (hrun c (h_fresh c root) h) in
-  HInv s /\ leaked s = leaked (h_fresh c root) /\ fds s = fds_owned s + leaked (h_fresh c root).
+  HInv s /\ leaked s = 0 /\ fds s = fds_owned s.
 Proof.
-  intros NW K. destruct (h_fresh_inv c root) as (I & L & NH).
+  intros NW. destruct (h_fresh_inv c root) as (I & L & NH).
   assert (NW1 : next_handle (h_fresh c root) + N.of_nat (length h) <= U64MAX) by (rewrite NH; exact NW).
-  destruct (hrun_inv c h (h_fresh c root) I NW1) as [A B]. rewrite K in B. cbn [length] in B.
+  destruct (hrun_inv c h (h_fresh c root) I NW1) as [A B].
   cbn zeta. split; [exact A|]. split; [lia|]. destruct A as (BA & _). unfold Bal in BA. rewrite BA. lia.
 Qed.
 
 Definition ex15_hist : list hop :=
   [HInode (OLookup 1 (Some ex_a)); HOpen false 2 true; HUse 4 2 1; HRelease false 2 1;
-   HCreate 1 (Some ex_a) true true; HRelease false 2 2; HInode (OForget 2 2); HDestroy d9_root].
+   HCreate 1 (Some ex_a) true true; HRelease false 2 2; HCreate 1 (Some d9_fifo) true false;
+   HInode (OForget 2 2); HDestroy d9_root].
 Lemma ex15_ok :
   let c := mkHC d9_cfg false false in
-  filter (known_d8 c) ex15_hist = [] /\
+  wf_t (hc c) d9_root /\ Forall (hop_wf c) ex15_hist /\
   fst (hrun c (h_fresh c d9_root) ex15_hist) =
-    [HR (RIno 2); HOk (Some 1); HHost; HUnit; HCreated 2 (Some 2); HUnit; HR RUnit; HUnit] /\
+    [HR (RIno 2); HOk (Some 1); HHost; HUnit; HCreated 2 (Some 2); HUnit; HR (RErr EBADF); HR RUnit; HUnit] /\
+  handles (snd (hrun c (h_fresh c d9_root) ex15_hist)) = [] /\
   fds (snd (hrun c (h_fresh c d9_root) ex15_hist)) = fds (h_fresh c d9_root).
-Proof. vm_compute. auto. Qed.
+Proof.
+  cbn zeta. split; [reflexivity|]. split; [repeat constructor|]. vm_compute. auto.
+Qed.
